@@ -141,6 +141,21 @@ func envOf(env *T, arm int) *T {
 }
 
 func (x *Exec) callFunc(st *State, fn *ssa.Function, args []Val, binds []Val, pos token.Pos) (Val, bool) {
+	// synthetic wrappers (bound method closures, promoted-method thunks): just run them
+	if fn.Synthetic != "" && len(fn.Blocks) > 0 && (fn.Pkg == nil || x.P.isRepoPkg(fn.Pkg.Pkg)) && x.P.Specs[fn] == nil {
+		nst, vals := x.runFunction(st, fn, args, binds)
+		if nst == nil {
+			return nil, false
+		}
+		*st = *nst
+		switch len(vals) {
+		case 0:
+			return nil, true
+		case 1:
+			return vals[0], true
+		}
+		return VTuple(vals), true
+	}
 	// external (no SSA body, or outside the module): built-in models
 	if fn.Pkg == nil || !x.P.isRepoPkg(fn.Pkg.Pkg) {
 		if fn.Name() == "init" {
@@ -348,6 +363,25 @@ func (x *Exec) applyContract(st *State, fn *ssa.Function, spec *contract.FuncSpe
 		}
 	}
 	for _, class := range written {
+		// classes only touched through `sets` clauses need no havoc: the assignment below is exact
+		exact, any := true, false
+		for _, m := range mods {
+			if classMatches(canon(class), m.Class) {
+				any = true
+				if !m.Exact {
+					exact = false
+				}
+			}
+		}
+		if any && exact {
+			continue
+		}
+		if !any && x.Mode == ModeUnwind {
+			// the callee only initialises objects it allocates itself; pre-existing objects of
+			// this class are untouched (that is what the frame axiom would say) and the result,
+			// if it is a fresh slice, is materialised by `attr fresh_result`
+			continue
+		}
 		x.havocClass(st, old, class, mods, allocBefore)
 	}
 	env.st = st
@@ -369,6 +403,50 @@ func (x *Exec) applyContract(st *State, fn *ssa.Function, spec *contract.FuncSpe
 		}
 		env.vars["result"] = res
 		nres = -1
+	}
+	if fr := spec.Attrs["fresh_result"]; fr != "" && nres == 1 && x.Mode == ModeUnwind {
+		// `attr fresh_result <len> <lo> <hi>`: the result is a freshly allocated slice of that
+		// (concrete) length whose elements are unknown integers in [lo, hi)
+		res = x.freshSliceResult(st, env, fr, sig.Results().At(0).Type(), site)
+		env.vars["result"] = res
+		nres = -1
+	}
+	if nres == 1 {
+		// a defining postcondition `ensures result == E` gives the result directly
+		for _, e := range spec.Ensures {
+			b, ok := e.E.(*contract.Binary)
+			if !ok || b.Op != "==" {
+				continue
+			}
+			id, ok := b.X.(*contract.Ident)
+			if !ok || id.Name != "result" || mentions(b.Y, "result") {
+				continue
+			}
+			if e.Name == "rep" && !sameP {
+				continue
+			}
+			v := env.eval(b.Y)
+			rt := sig.Results().At(0).Type()
+			switch d := v.(type) {
+			case VMath:
+				if len(comps(rt)) == 1 && comps(rt)[0].sort == d.T.Sort {
+					res = VT{d.T, rt}
+				}
+			case VT:
+				if len(comps(rt)) == 1 && comps(rt)[0].sort == d.T.Sort {
+					res = VT{d.T, rt}
+				}
+			default:
+				if len(flatten(v)) == len(comps(rt)) {
+					res = rebuildLike(zeroVal(rt), flatten(v))
+				}
+			}
+			if res != nil {
+				env.vars["result"] = res
+				nres = -1
+				break
+			}
+		}
 	}
 	switch nres {
 	case -1, 0:
@@ -401,7 +479,73 @@ func (x *Exec) applyContract(st *State, fn *ssa.Function, spec *contract.FuncSpe
 	if spec.Attrs["noreturn"] != "" {
 		return nil, false
 	}
+	if x.LogCalls {
+		rec := CallRec{Fn: specKey(fn, spec), Args: args, Res: res}
+		for _, a := range args {
+			var elems []*T
+			if sl, ok := a.(VSlice); ok {
+				if n, ok := sl.Len.Int64(); ok && n <= 1<<16 {
+					et := sl.Ty.Underlying().(*types.Slice).Elem()
+					if cs := comps(et); len(cs) == 1 {
+						for i := int64(0); i < n; i++ {
+							elems = append(elems, x.loadComp(old, "e:"+typeKey(et), cs[0].sort, sl.Ref, term.Add(sl.Off, term.I(i))))
+						}
+					}
+				}
+			}
+			rec.ArgElems = append(rec.ArgElems, elems)
+		}
+		x.Calls = append(x.Calls, rec)
+	}
 	return res, true
+}
+
+// CallRec records one contract application (unwinding drivers inspect the arguments of
+// abstracted callees, e.g. what exactly is handed to the Reed-Solomon encoder).
+type CallRec struct {
+	Fn       string
+	Args     []Val
+	ArgElems [][]*T // element terms of slice arguments (at call time)
+	Res      Val
+}
+
+func (x *Exec) freshSliceResult(st *State, env *Env, attr string, rt types.Type, site string) Val {
+	fields := strings.Fields(attr)
+	if len(fields) != 3 {
+		x.fail("attr fresh_result needs: <len> <lo> <hi>")
+	}
+	ev := func(s string) *T {
+		e, err := contract.ParseExpr(s)
+		if err != nil {
+			x.fail("attr fresh_result: %v", err)
+		}
+		return env.evalInt(e)
+	}
+	n, ok := ev(fields[0]).Int64()
+	if !ok {
+		x.fail("attr fresh_result: length is not concrete at %s", site)
+	}
+	lo, hi := ev(fields[1]), ev(fields[2])
+	et := rt.Underlying().(*types.Slice).Elem()
+	ref := x.newBacking(st, et)
+	class := "e:" + typeKey(et)
+	cs := comps(et)
+	a := x.heapArr(st, class, cs[0].sort)
+	inner := term.Select(a, ref)
+	x.freshSeq++
+	for i := int64(0); i < n; i++ {
+		v := term.Var(fmt.Sprintf("%s!%d[%d]", short(site), x.freshSeq, i), term.Int)
+		if lo.IsConst() && hi.IsConst() && lo.Val.Cmp(hi.Val) < 0 {
+			// structurally bounded: range facts fold syntactically
+			v = term.Add(lo, term.EMod(v, term.Sub(hi, lo)))
+		} else {
+			x.assumeOnce(term.And(term.Le(lo, v), term.Lt(v, hi)))
+		}
+		inner = term.Store(inner, term.I(i), v)
+	}
+	st.Heap[class] = term.Store(a, ref, inner)
+	ln := term.I(n)
+	return VSlice{ref, term.I(0), ln, ln, rt}
 }
 
 func clauseLabel(c *contract.Clause, i int) string {
@@ -490,7 +634,11 @@ func (x *Exec) doAppend(st *State, s VSlice, more Val, moreT types.Type, pos tok
 	}
 	newLen := term.Add(s.Len, mLen)
 	n, isConst := mLen.Int64()
-	if !isConst || n > 64 {
+	limit := int64(64)
+	if x.Mode != ModeProof {
+		limit = 1 << 16
+	}
+	if !isConst || n > limit {
 		// bulk append: fresh backing array described by axioms
 		ref := x.allocRef(st)
 		for k, c := range cs {
